@@ -123,6 +123,31 @@ class VM {
    * @return true if the end has been reached
    */
   bool isDone();
+
+#ifdef THEO_IDE_LIBTHEO_VERIF
+  // read-only observation hooks for the verification harness (no state, no
+  // behaviour)
+  ProgramIndex verifInstructionPointer() const { return instruction_pointer; }
+  std::size_t verifDataSize() const { return data.size(); }
+  Word verifDataWord(std::size_t i) const { return data[i]; }
+  std::size_t verifActivationCount() const { return stack.size(); }
+  WordIndex verifActivationBase(std::size_t k) const {
+    return stack[k].data_start;
+  }
+  WordIndex verifActivationSize(std::size_t k) const {
+    return stack[k].seg_size;
+  }
+  RegisterIndex verifActivationRetTarget(std::size_t k) const {
+    return stack[k].ret_target;
+  }
+  ProgramIndex verifActivationRetAddr(std::size_t k) const {
+    return stack[k].ret_addr;
+  }
+  StackMapIndex verifActivationStackMap(std::size_t k) const {
+    return stack[k].debug_info;
+  }
+  const Program& verifProgram() const { return code; }
+#endif
 };
 
 }  // namespace Theo
